@@ -17,6 +17,7 @@ FragmentsOfRegexps, Packet.as_regular_expression and pattern_matching.filter_lik
      with the N the unpack strategy uses; a delimited Data renders <custom|.*> + the
      escaped marker / the marker's pattern;
  (e) holes render as (?:.{n}) with n = gap, only when n > 0;
+ (g) building the pattern is stateless (rule R5 of C13 on the regexp functions);
  (f) Bits: all-fixed byte -> literal; all-don't-care -> .{1}; don't-care suffix ->
      range [lo-hi] with escaped bounds; otherwise the class of {(p & dont_care) | fixed}.
 Language inclusion of the regex and the regex engine itself are not decided.
@@ -525,6 +526,17 @@ def check(ctx):
     check_assembly(ctx, repo)
     check_prefix_and_match(ctx, repo)
     check_bits(ctx, repo)
+    # (g) building the pattern is stateless: a cache on a shared object makes the pattern of one
+    # packet depend on the patterns built before it
+    from .c13 import check_statelessness
+    regexp_funcs = []
+    for fi in repo.functions.values():
+        last = fi.qual.split('.')[-1]
+        if last in ('pack_regexp', 'as_regular_expression', 'as_regular_expression_impl', 'assemble_regexp') or fi.module == 'pattern_matching' \
+                or (fi.cls is not None and fi.cls.name == 'FragmentsOfRegexps'):
+            if last not in ('__init__',):
+                regexp_funcs.append(fi)
+    check_statelessness(ctx, regexp_funcs)
     # cross-reference (outside the declared scope, not a verdict)
     for cname in ('Sequence', 'Optional'):
         if repo.has_cls(cname):
